@@ -1,6 +1,362 @@
 import XV.Model.Pool
-import XV.Lemmas.Assoc
-import XV.Lemmas.ChainFrame
+import XV.Lemmas.Pool
+import XV.Lemmas.PoolGraph
+import XV.Lemmas.PoolSwap
+/-!
+C13 — blocks a node produces from its own pool are valid everywhere and replay to the producer's state; the pool
+order puts every transaction after its producers and before any overwriter of a key version it only read.
+
+Theorems about `XV.Pool` (model of `Tx.SortUnconfirmedTx` + `TopSortDFS` with Go's map iteration order as an explicit
+argument) over the L1 chain model `XV.Chain` (`admitTx` / `applyTx`):
+
+* the order: every order `TopSortDFS` returns — any graph, any iteration order — lists every node exactly once and
+  respects every edge; acyclic graphs are always sorted (the fuel of the model suffices, no false cycle report);
+* the graph: it contains the producer → consumer edges and the reader → overwriter edges, and nothing else;
+* replay: a pool admitted one by one in some order is admissible, with the same final tables, in every order that
+  respects the edges (commutation of independent admissions), in particular in every order the pool can yield;
+* the graph of the code before repair `eb76c54` admits the order (W, R), which no replica can replay.
+-/
 namespace XV.C13
 open XV.Chain XV.Pool
+
+-- ================================================================ 1. TopSortDFS
+
+/-- **every order `TopSortDFS` can return** — for ALL graphs (sources of edges are keys of the map, as in a Go map of
+adjacency lists) and ALL iteration orders `keyOrder` of `range g` — lists each node exactly once and puts `u` before
+`v` for every edge `u → v`. (No acyclicity hypothesis: whenever an order is returned, it is a topological order.) -/
+theorem order_respects_deps (g : Graph) (keyOrder order : List Nat)
+    (hsrc : ∀ e ∈ g.edges, e.1 ∈ g.nodes)
+    (hko : ∀ x, x ∈ keyOrder ↔ x ∈ g.allNodes)
+    (h : (topSortDFS g keyOrder).order = some order) :
+    order.Nodup ∧ (∀ x, x ∈ order ↔ x ∈ g.allNodes) ∧ ∀ e ∈ g.edges, Before order e.1 e.2 := by
+  unfold topSortDFS topSortWith at h
+  simp only at h
+  generalize hroots : (components g (fuelOf g) keyOrder []).flatten = roots at h
+  generalize hs : visitList g (fuelOf g) roots {} = s at h
+  have hsrc' : ∀ e ∈ g.edges, e.1 ∈ g.allNodes := fun e he => (mem_allNodes g e.1).mpr (Or.inl (hsrc e he))
+  have hrsub : ∀ x ∈ roots, x ∈ g.allNodes := by
+    rw [← hroots]
+    exact components_sub g (fuelOf g) hsrc' keyOrder [] (fun x hx => (hko x).mp hx)
+  have hrcov : ∀ x ∈ g.allNodes, x ∈ roots := by
+    intro x hx
+    rw [← hroots]
+    rcases components_cover g g.allNodes.length keyOrder [] x ((hko x).mpr hx) with h | h
+    · simp at h
+    · exact h
+  have hc : s.cyc = false := by
+    cases hcc : s.cyc with
+    | false => rfl
+    | true => simp [hcc] at h
+  simp only [hc, Bool.false_eq_true, ↓reduceIte, Option.some.injEq] at h
+  obtain ⟨⟨inv, _, _, _⟩, hall⟩ := visitList_spec g (fuelOf g) (visit_spec g (fuelOf g)) roots {} (inv_init g) hrsub
+    (by rw [hs]; exact hc)
+  rw [hs] at inv hall
+  subst h
+  refine ⟨inv.nodup, ?_, ?_⟩
+  · intro x
+    constructor
+    · intro hx; exact inv.sub x ((inv.same x).mp hx)
+    · intro hx; exact (inv.same x).mpr (hall x (hrcov x hx))
+  · intro e he
+    have hu : e.1 ∈ s.perm := hall e.1 (hrcov e.1 (hsrc' e he))
+    exact inv.closed e.1 hu e.2 ((mem_children g e.1 e.2).mpr he)
+
+/-- **acyclic graphs are sorted**: for an acyclic graph `TopSortDFS` returns an order under every iteration order —
+the cycle flag is never raised falsely, and the recursion depth of the model (`fuelOf g`) is sufficient -/
+theorem acyclic_is_sorted (g : Graph) (keyOrder : List Nat)
+    (hsrc : ∀ e ∈ g.edges, e.1 ∈ g.nodes)
+    (hko : ∀ x, x ∈ keyOrder ↔ x ∈ g.allNodes)
+    (hac : Acyclic g) :
+    ∃ order, (topSortDFS g keyOrder).order = some order := by
+  obtain ⟨rank, hr⟩ := hac
+  unfold topSortDFS topSortWith
+  simp only
+  have hsrc' : ∀ e ∈ g.edges, e.1 ∈ g.allNodes := fun e he => (mem_allNodes g e.1).mpr (Or.inl (hsrc e he))
+  have hrsub : ∀ x ∈ (components g (fuelOf g) keyOrder []).flatten, x ∈ g.allNodes :=
+    components_sub g (fuelOf g) hsrc' keyOrder [] (fun x hx => (hko x).mp hx)
+  obtain ⟨hc, _⟩ := visitList_nocycle g rank (fuelOf g) (visit_nocycle g rank hr (fuelOf g))
+    (components g (fuelOf g) keyOrder []).flatten {} rfl List.nodup_nil (by simp) hrsub (by simp)
+    (by simp [fuelOf])
+  simp only [hc, Bool.false_eq_true, ↓reduceIte]
+  exact ⟨_, rfl⟩
+
+/-- a returned order witnesses acyclicity: `TopSortDFS` reports a cycle for every cyclic graph -/
+theorem cyclic_is_refused (g : Graph) (keyOrder order : List Nat)
+    (hsrc : ∀ e ∈ g.edges, e.1 ∈ g.nodes)
+    (hko : ∀ x, x ∈ keyOrder ↔ x ∈ g.allNodes)
+    (h : (topSortDFS g keyOrder).order = some order) : ∀ e ∈ g.edges, e.1 ≠ e.2 := by
+  intro e he
+  obtain ⟨hnd, _, hb⟩ := order_respects_deps g keyOrder order hsrc hko h
+  exact (hb e he).ne_of_nodup hnd
+
+-- ================================================================ 2. the graph of SortUnconfirmedTx
+
+/-- the graph has the producer → consumer edges of token inputs and of key inputs -/
+theorem graph_has_dep_edges (pool : List Tx) (u v : Tx) (hu : u ∈ pool) (hv : v ∈ pool)
+    (h : tokDep u v = true ∨ keyDep u v = true) : (u.id, v.id) ∈ (sortUnconfirmed pool).edges := by
+  unfold sortUnconfirmed
+  simp only [List.mem_append]
+  left
+  rw [mem_depEdges]
+  refine ⟨v, hv, rfl, (inPool_iff pool u.id).mpr ⟨u, hu, rfl⟩, ?_⟩
+  rcases h with h | h
+  · unfold tokDep at h
+    simp only [List.any_eq_true, beq_iff_eq] at h
+    exact Or.inl h
+  · unfold keyDep at h
+    simp only [List.any_eq_true] at h
+    obtain ⟨ki, hki, hm⟩ := h
+    cases hver : ki.ver with
+    | none => simp [hver] at hm
+    | some w =>
+      simp only [hver, beq_iff_eq] at hm
+      exact Or.inr ⟨ki, hki, w, hver, hm⟩
+
+/-- no two pool transactions overwrite the same key version (true of every admitted pool: the second would be stale) -/
+def UniqueWriters (pool : List Tx) : Prop :=
+  ∀ t1 ∈ pool, ∀ t2 ∈ pool, ∀ vk, overwrites t1 vk → overwrites t2 vk → t1.id = t2.id
+
+/-- **the graph has the reader → overwriter edges**: for pool transactions `R` (reads `K@v`, does not write `K`) and
+`W` (reads `K@v` and writes `K`) the edge `R → W` is in the graph (`W` being the pool's only overwriter of `K@v`, as
+in every admitted pool; the Go code keeps one writer per version) -/
+theorem graph_has_antidep_edges (pool : List Tx) (R W : Tx) (hR : R ∈ pool) (hW : W ∈ pool) (hne : R.id ≠ W.id)
+    (kR kW : KIn) (hkR : kR ∈ R.kin) (hnw : writesKey R kR.key = false)
+    (hkW : kW ∈ W.kin) (hkey : kW.key = kR.key) (hver : kW.ver = kR.ver) (hw : writesKey W kW.key = true)
+    (huniq : ∀ t ∈ pool, overwrites t (kR.key, kR.ver) → t.id = W.id) :
+    (R.id, W.id) ∈ (sortUnconfirmed pool).edges := by
+  unfold sortUnconfirmed
+  simp only [List.mem_append]
+  right
+  rw [mem_antiEdges]
+  have how : overwrites W (kR.key, kR.ver) := ⟨kW, hkW, by rw [hkey, hver], hw⟩
+  refine ⟨(kR.key, kR.ver), writers_complete pool _ W.id huniq ⟨W, hW, how⟩, ?_, hne⟩
+  rw [mem_readers]
+  exact ⟨R, hR, rfl, kR, hkR, rfl, hnw⟩
+
+/-- every `edge` between two pool transactions is in the graph -/
+theorem graph_edges_complete (pool : List Tx) (hu : UniqueWriters pool) (u v : Tx) (hu' : u ∈ pool) (hv : v ∈ pool)
+    (he : edge u v = true) : (u.id, v.id) ∈ (sortUnconfirmed pool).edges := by
+  unfold edge at he
+  simp only [Bool.or_eq_true] at he
+  rcases he with (h | h) | h
+  · exact graph_has_dep_edges pool u v hu' hv (Or.inl h)
+  · exact graph_has_dep_edges pool u v hu' hv (Or.inr h)
+  · unfold antiDep at h
+    simp only [Bool.and_eq_true, bne_iff_ne, ne_eq, List.any_eq_true, Bool.not_eq_true', beq_iff_eq] at h
+    obtain ⟨hne, pk, hpk, hnw, ck, hck, ⟨hk, hvv⟩, hw⟩ := h
+    refine graph_has_antidep_edges pool u v hu' hv hne pk ck hpk hnw hck hk hvv hw ?_
+    intro t ht ho
+    exact hu t ht v hv _ ho ⟨ck, hck, by rw [hk, hvv], hw⟩
+
+/-- the graph has no other edges: every edge joins two pool transactions related by `edge` -/
+theorem graph_edges_sound (pool : List Tx) (a b : Nat) (h : (a, b) ∈ (sortUnconfirmed pool).edges) :
+    ∃ u ∈ pool, ∃ v ∈ pool, u.id = a ∧ v.id = b ∧ edge u v = true := by
+  unfold sortUnconfirmed at h
+  simp only [List.mem_append] at h
+  rcases h with h | h
+  · rw [mem_depEdges] at h
+    obtain ⟨v, hv, rfl, hp, hd⟩ := h
+    obtain ⟨u, hu, rfl⟩ := (inPool_iff pool a).mp hp
+    refine ⟨u, hu, v, hv, rfl, rfl, ?_⟩
+    unfold edge
+    rcases hd with ⟨r, hr, hx⟩ | ⟨ki, hki, w, hver, hx⟩
+    · have : tokDep u v = true := by
+        unfold tokDep
+        simp only [List.any_eq_true, beq_iff_eq]
+        exact ⟨r, hr, hx⟩
+      simp [this]
+    · have : keyDep u v = true := by
+        unfold keyDep
+        simp only [List.any_eq_true]
+        exact ⟨ki, hki, by simp [hver, hx]⟩
+      simp [this]
+  · rw [mem_antiEdges] at h
+    obtain ⟨vk, hw, hr, hne⟩ := h
+    obtain ⟨W, hW, hWid, ck, hck, hcv, hcw⟩ := mem_writers pool _ hw
+    obtain ⟨R, hR, hRid, pk, hpk, hpv, hpw⟩ := (mem_readers pool vk a).mp hr
+    simp only at hWid hcv
+    refine ⟨R, hR, W, hW, hRid, hWid, ?_⟩
+    have hkv : (ck.key, ck.ver) = (pk.key, pk.ver) := hcv.trans hpv.symm
+    simp only [Prod.mk.injEq] at hkv
+    have : antiDep R W = true := by
+      unfold antiDep
+      simp only [Bool.and_eq_true, bne_iff_ne, ne_eq, List.any_eq_true, Bool.not_eq_true', beq_iff_eq]
+      exact ⟨by rw [hRid, hWid]; exact hne, pk, hpk, hpw, ck, hck, ⟨hkv.1, hkv.2⟩, hcw⟩
+    unfold edge
+    simp [this]
+
+/-- the graph of a pool is a Go map over the pool: sources and targets of edges are pool transactions -/
+theorem graph_nodes (pool : List Tx) :
+    (∀ e ∈ (sortUnconfirmed pool).edges, e.1 ∈ (sortUnconfirmed pool).nodes) ∧
+    (∀ x, x ∈ (sortUnconfirmed pool).allNodes ↔ x ∈ ids pool) := by
+  have hn : (sortUnconfirmed pool).nodes = ids pool := rfl
+  constructor
+  · intro e he
+    obtain ⟨u, hu, _, _, hua, _, _⟩ := graph_edges_sound pool e.1 e.2 he
+    rw [hn, ← hua]; exact mem_ids hu
+  · intro x
+    rw [mem_allNodes, hn]
+    constructor
+    · rintro (h | ⟨a, ha⟩)
+      · exact h
+      · obtain ⟨_, _, v, hv, _, hvb, _⟩ := graph_edges_sound pool a x ha
+        rw [← hvb]; exact mem_ids hv
+    · intro h; exact Or.inl h
+
+-- ================================================================ 3. replay
+
+/-- **two adjacent independent admissions commute**: if `b` was admitted right after `a`, spends no output of `a`
+(nor `a` of `b`), read no key version written by `a`, and `a` is not a read-only reader of a version `b` overwrites,
+then `b` is admissible first, `a` after it, and both orders end in the same tables (every U / ZU / ZD lookup, total) -/
+theorem swap_independent (s : St) (lh : Int) (a b : Tx) (hi : Indep a b)
+    (ha : admitTx s lh a = .ok) (hb : admitTx (applyTx s a) lh b = .ok) :
+    admitTx s lh b = .ok ∧ admitTx (applyTx s b) lh a = .ok ∧
+    Equiv (applyTx (applyTx s a) b) (applyTx (applyTx s b) a) :=
+  swap_core s lh a b hi ha hb
+
+/-- **replayable** (headline): a pool whose transactions were admitted one by one in some order `adm` (each `admitTx`
+ok on the evolving state; ids pairwise distinct and fresh, as hashes are) is admissible one by one from the same start
+state in ANY order `ord` that keeps `u` before `v` whenever `edge u v` (output consumed, key version consumed, or
+read-only reader before overwriter) — and ends in the same tables (all U / ZU / ZD lookups and the total) -/
+theorem replayable (s sA : St) (lh : Int) (adm ord : List Tx)
+    (hperm : adm.Perm ord) (hids : (ids adm).Nodup) (hfresh : FreshU s (ids adm))
+    (hadm : admitAll s lh adm = some sA)
+    (hord : ∀ u ∈ adm, ∀ v ∈ adm, edge u v = true → Before (ids ord) u.id v.id) :
+    ∃ sB, admitAll s lh ord = some sB ∧ Equiv sA sB :=
+  reorder lh ord adm s sA hperm hids hfresh hadm hord
+
+/-- the size limit packs a prefix of the order: every prefix of an admissible sequence is admissible -/
+theorem prefix_admissible (s r : St) (lh : Int) (l1 l2 : List Tx) (h : admitAll s lh (l1 ++ l2) = some r) :
+    ∃ m, admitAll s lh l1 = some m :=
+  let ⟨m, hm, _⟩ := admitAll_append lh l1 l2 s r h
+  ⟨m, hm⟩
+
+theorem id_inj_of_nodup : ∀ (l : List Tx), (ids l).Nodup → ∀ a ∈ l, ∀ b ∈ l, a.id = b.id → a = b := by
+  intro l
+  induction l with
+  | nil => intro _ a ha; simp at ha
+  | cons c l ih =>
+    intro hnd a ha b hb hab
+    simp only [ids_cons, List.nodup_cons] at hnd
+    rcases List.mem_cons.mp ha with ha | ha <;> rcases List.mem_cons.mp hb with hb | hb
+    · rw [ha, hb]
+    · exfalso; apply hnd.1; rw [← ha, hab]; exact mem_ids hb
+    · exfalso; apply hnd.1; rw [← hb, ← hab]; exact mem_ids ha
+    · exact ih hnd.2 a ha b hb hab
+
+theorem nodup_of_ids : ∀ (l : List Tx), (ids l).Nodup → l.Nodup := by
+  intro l
+  induction l with
+  | nil => intro _; exact List.nodup_nil
+  | cons c l ih =>
+    intro hnd
+    simp only [ids_cons, List.nodup_cons] at hnd
+    exact List.nodup_cons.mpr ⟨fun h => hnd.1 (mem_ids h), ih hnd.2⟩
+
+/-- **every order the pool can yield is replayable** (model of `GetUnconfirmedTx` end to end): the pool was admitted in
+the order `adm`; `it` is the pool in any map iteration order; if `TopSortDFS` over `SortUnconfirmedTx`'s graph, under
+any iteration order `keyOrder`, returns the transactions `ord`, then a replica admits `ord` one by one from the start
+state and reaches the producer's tables -/
+theorem pool_order_replayable (s sA : St) (lh : Int) (adm it ord : List Tx) (keyOrder : List Nat)
+    (hids : (ids adm).Nodup) (hfresh : FreshU s (ids adm)) (hadm : admitAll s lh adm = some sA)
+    (huw : UniqueWriters adm) (hit : it.Perm adm)
+    (hko : ∀ x, x ∈ keyOrder ↔ x ∈ (sortUnconfirmed it).allNodes)
+    (hsort : (topSortDFS (sortUnconfirmed it) keyOrder).order = some (ids ord))
+    (hsub : ∀ t ∈ ord, t ∈ adm) :
+    ∃ sB, admitAll s lh ord = some sB ∧ Equiv sA sB := by
+  obtain ⟨hsrc, hall⟩ := graph_nodes it
+  obtain ⟨hnd, hmem, hbef⟩ := order_respects_deps _ keyOrder (ids ord) hsrc hko hsort
+  have hitmem : ∀ t, t ∈ it ↔ t ∈ adm := fun t => hit.mem_iff
+  have hidsit : ∀ x, x ∈ ids it ↔ x ∈ ids adm := by
+    intro x
+    unfold ids
+    exact (hit.map _).mem_iff
+  -- ord is a permutation of adm
+  have hperm : adm.Perm ord := by
+    apply (List.perm_ext_iff_of_nodup (nodup_of_ids adm hids) (nodup_of_ids ord hnd)).mpr
+    intro t
+    constructor
+    · intro ht
+      have : t.id ∈ ids ord := (hmem t.id).mpr ((hall t.id).mpr ((hidsit t.id).mpr (mem_ids ht)))
+      obtain ⟨t', ht', hid⟩ := List.mem_map.mp this
+      have := id_inj_of_nodup adm hids t' (hsub t' ht') t ht hid
+      exact this ▸ ht'
+    · exact hsub t
+  have huw' : UniqueWriters it := by
+    intro t1 h1 t2 h2 vk o1 o2
+    exact huw t1 ((hitmem t1).mp h1) t2 ((hitmem t2).mp h2) vk o1 o2
+  refine replayable s sA lh adm ord hperm hids hfresh hadm ?_
+  intro u hu v hv he
+  exact hbef (u.id, v.id) (graph_edges_complete it huw' u v ((hitmem u).mpr hu) ((hitmem v).mpr hv) he)
+
+-- ================================================================ 4. before the repair; non-vacuity
+
+/-- start state with key `k0` at version (1,0) and one unspent output -/
+def s0 : St := { U := [((0, 0), ⟨"u0", 5, 0⟩)], ZU := [("k0", (1, 0))] }
+/-- `R` only reads `k0@(1,0)`; `W` reads it and overwrites `k0`; `X` spends the output; `Y` spends `X`'s output and
+reads the version `W` wrote -/
+def txR : Tx := ⟨5, false, [], [], [⟨"k0", some (1, 0)⟩], []⟩
+def txW : Tx := ⟨6, false, [], [], [⟨"k0", some (1, 0)⟩], [⟨"k0", "v", false⟩]⟩
+def txX : Tx := ⟨7, false, [⟨0, 0, "u0", 5, 0, false⟩], [⟨"u1", 5, 0⟩], [], []⟩
+def txY : Tx := ⟨8, false, [⟨7, 0, "u1", 5, 0, false⟩], [⟨"u2", 5, 0⟩], [⟨"k0", some (6, 0)⟩], []⟩
+
+/-- the full statement for the graph before repair `eb76c54` (dependency edges only): every order it allows is replayable -/
+def replayable_prefix_statement : Prop :=
+  ∀ (s : St) (adm : List Tx) (keyOrder order : List Nat),
+    (admitAll s 0 adm).isSome →
+    (topSortDFS (sortUnconfirmedPreFix adm) keyOrder).order = some order →
+    ∀ ord : List Tx, ids ord = order → (∀ t ∈ ord, t ∈ adm) → (admitAll s 0 ord).isSome
+
+/-- **before the repair** the graph (without reader → overwriter edges) admits the order (W, R) for the pool admitted as
+(R, W) — and (W, R) is not admissible: a replica refuses R as stale -/
+theorem prefix_counterexample : ¬ replayable_prefix_statement := by
+  intro h
+  have := h s0 [txR, txW] [5, 6] [6, 5] (by decide) (by decide) [txW, txR] (by decide) (by decide)
+  revert this
+  decide
+
+/-- with the repaired graph the same pool yields (R, W) under both iteration orders -/
+theorem repaired_example :
+    (topSortDFS (sortUnconfirmed [txR, txW]) [5, 6]).order = some [5, 6] ∧
+    (topSortDFS (sortUnconfirmed [txW, txR]) [6, 5]).order = some [5, 6] ∧
+    (sortUnconfirmed [txR, txW]).edges = [(5, 6)] := by decide
+
+-- non-vacuity: the hypotheses of `replayable` / `pool_order_replayable` hold for a pool with all three kinds of edge,
+-- and two different orders are possible
+example :
+    (admitAll s0 0 [txR, txW, txX, txY]).isSome ∧ (ids [txR, txW, txX, txY]).Nodup ∧
+    (sortUnconfirmed [txR, txW, txX, txY]).edges = [(7, 8), (6, 8), (5, 6)] ∧
+    (topSortDFS (sortUnconfirmed [txR, txW, txX, txY]) [5, 6, 7, 8]).order = some [5, 6, 7, 8] ∧
+    (topSortDFS (sortUnconfirmed [txR, txW, txX, txY]) [7, 8, 6, 5]).order = some [7, 5, 6, 8] ∧
+    (admitAll s0 0 [txX, txR, txW, txY]).isSome := by decide
+
+example : FreshU s0 (ids [txR, txW, txX, txY]) := by
+  intro k hk
+  simp only [ids, List.map, txR, txW, txX, txY, List.mem_cons, List.not_mem_nil, or_false] at hk
+  unfold s0
+  simp only [lookup]
+  split
+  · rename_i h; rw [← h] at hk; simp at hk
+  · rfl
+
+example : UniqueWriters [txR, txW, txX, txY] := by
+  intro t1 h1 t2 h2 vk o1 o2
+  have hw : ∀ t ∈ [txR, txW, txX, txY], ∀ vk, overwrites t vk → t = txW := by
+    intro t ht vk ⟨k, hk, _, hwk⟩
+    simp only [List.mem_cons, List.not_mem_nil, or_false] at ht
+    rcases ht with rfl | rfl | rfl | rfl
+    · simp [txR, writesKey] at hwk
+    · rfl
+    · simp [txX] at hk
+    · simp [txY, writesKey] at hwk
+  rw [hw t1 h1 vk o1, hw t2 h2 vk o2]
+
+-- an acyclic and a cyclic raw graph: sorted / refused under every listed iteration order
+example : Acyclic { nodes := [1, 2, 3], edges := [(1, 2), (2, 3), (1, 3)] } :=
+  ⟨fun n => n, by decide⟩
+example :
+    (topSortDFS { nodes := [1, 2, 3], edges := [(1, 2), (2, 3), (1, 3)] } [3, 2, 1]).order = some [1, 2, 3] ∧
+    (topSortDFS { nodes := [1, 2, 3], edges := [(1, 2), (2, 3), (3, 1)] } [1, 2, 3]).order = none ∧
+    (topSortDFS { nodes := [1, 2, 3, 4], edges := [(1, 2), (4, 3)] } [2, 3, 1, 4]).dagSizes = [2, 2] := by decide
+
 end XV.C13
